@@ -7,7 +7,8 @@ Oracle: E_n(M) of the reference model for every n in 0..N, N >= (largest special
 import time
 
 from .. import gen
-from ..common import program_corpus, analyse_program_goals, alias_programs
+from ..common import program_corpus, analyse_program_goals, alias_programs, cli_text_check
+from ..pool import tainted
 
 ID = "C01"
 LEVEL = "model_checking"
@@ -35,8 +36,11 @@ def bounds(tier):
 
 def cases(tier, seed):
     out = []
-    for text, goals in program_corpus("c01", tier):
+    for i, (text, goals) in enumerate(program_corpus("c01", tier)):
         out.append({"input": {"text": text, "goals": goals}, "N": 4 if tier == "quick" else 6, "seed": seed})
+        if i < 20 or i % (6 if tier == "quick" else 3) == 0:
+            # the printed CLI route for a deterministic slice of the corpus
+            out.append({"input": {"text": text, "goals": goals[:3], "route": "cli-text"}, "N": 4, "seed": seed})
     al = alias_programs(tier)
     for text in (al[::4] if tier == "quick" else al):
         out.append({"input": {"text": text, "goals": ["x", "y", "x*y"]}, "N": 4, "seed": seed})
@@ -44,4 +48,11 @@ def cases(tier, seed):
 
 
 def run_case(case):
+    if case["input"].get("route") == "cli-text":
+        stats = {"programs": 1, "evaluations": 0, "refusals": {}}
+        res = {"status": "ok", "stats": stats, "violations": []}
+        res["violations"] = cli_text_check(case["input"]["text"], case["input"]["goals"], case["N"], stats)
+        if res["violations"]:
+            res["status"] = "violation"
+        return res
     return analyse_program_goals(case["input"]["text"], case["input"]["goals"], case["N"], case.get("seed", 0))
